@@ -8,7 +8,7 @@
 From Coq Require Import String List NArith ZArith Bool.
 From J5V.lib Require Import Text Outcome.
 From J5V.model Require Import BclLexer BclParser BclFmt.
-From J5V.proofs Require Import BclPosProofs BclLexerProofs BclParserProofs BclFmtProofs BclFmtLitProofs BclReflowProofs BclLexLitProofs BclFmtSeqProofs BclFragWfProofs BclFmtLineProofs BclWalkBackProofs BclFmtFileProofs BclDescGapProofs BclFmtRoundProofs BclFmtIdemProofs BclDocProofs.
+From J5V.proofs Require Import BclPosProofs BclLexerProofs BclParserProofs BclFmtProofs BclFmtLitProofs BclReflowProofs BclLexLitProofs BclFmtSeqProofs BclFragWfProofs BclFmtLineProofs BclWalkBackProofs BclFmtFileProofs BclDescGapProofs BclFmtRoundProofs BclFmtIdemProofs BclDocProofs BclUtf8Proofs BclRuneClosedProofs BclFmtBytesProofs BclDocBytesProofs.
 (* after the proofs: doc_of / value_doc / tag_doc below are the declarative ones of model/BclDoc.v *)
 From J5V.model Require Import BclDoc.
 Import ListNotations.
@@ -200,6 +200,55 @@ Theorem C09_full : C09_full_statement.
 Proof. exact fmt_full. Qed.
 Print Assumptions C09_full.
 
+(* ---- the same on Go strings (bytes) ---------------------------------------------------------------- *)
+(* Fmt(input string) = string(fmt_runes([]rune(input))): fmt_bytes = utf8_encode . fmt_runes . utf8_decode,
+   ParseFile(input) = parse_runes([]rune(input)).  The statement over ALL byte strings the parser accepts
+   (invalid UTF-8 included: such bytes are read as U+FFFD): Fmt succeeds, the parser accepts the output
+   bytes, their fragments have the same documents as the input's, and Fmt of the output bytes is the
+   output bytes.  Rests on: []rune(s) only yields valid runes (decode_valid), string([]rune) read back by
+   []rune is the identity on valid runes (decode_encode), and the formatter writes only runes of its input
+   and ASCII (fmt_runes_closed: lexer literals, walker fragments, every text the formatter builds) *)
+Definition C09_full_statement_bytes : Prop :=
+  forall input, accepted_bytes input ->
+    exists outb fs fs',
+      fmt_bytes input = Ok outb /\ accepted_bytes outb /\
+      collect_fragments (utf8_decode input) = Ok fs /\ collect_fragments (utf8_decode outb) = Ok fs' /\
+      map doc_of fs' = map doc_of fs /\
+      fmt_bytes outb = Ok outb.
+
+Theorem C09_full_bytes : C09_full_statement_bytes.
+Proof. exact fmt_full_bytes. Qed.
+Print Assumptions C09_full_bytes.
+
+Theorem C09_same_tree_bytes : forall input body, parse_file input true = Ok (mkP (Some body) []) ->
+  exists outb body', fmt_bytes input = Ok outb /\ parse_file outb true = Ok (mkP (Some body') []) /\
+                     map stmt_doc body' = map stmt_doc body.
+Proof. exact fmt_same_tree_bytes. Qed.
+Print Assumptions C09_same_tree_bytes.
+
+Theorem C09_idempotent_bytes : forall input outb, fmt_bytes input = Ok outb -> fmt_bytes outb = Ok outb.
+Proof. exact fmt_bytes_idempotent. Qed.
+Print Assumptions C09_idempotent_bytes.
+
+(* the three facts the byte level adds *)
+Theorem C09_decode_yields_valid_runes : forall bs, Forall (fun c => valid_rune c = true) (utf8_decode bs).
+Proof. exact decode_valid. Qed.
+Print Assumptions C09_decode_yields_valid_runes.
+
+Theorem C09_decode_encode : forall rs, Forall (fun c => valid_rune c = true) rs -> utf8_decode (utf8_encode rs) = rs.
+Proof. exact decode_encode. Qed.
+Print Assumptions C09_decode_encode.
+
+Theorem C09_formatter_emits_input_runes_and_ascii : forall (P : N -> Prop), (forall c, (c < 128)%N -> P c) ->
+  forall data out, Forall P data -> fmt_runes data = Ok out -> Forall P out.
+Proof. exact fmt_runes_closed. Qed.
+Print Assumptions C09_formatter_emits_input_runes_and_ascii.
+
+(* the output is always valid UTF-8, also for an input that is not *)
+Theorem C09_output_is_utf8 : forall input outb, fmt_bytes input = Ok outb -> utf8_encode (utf8_decode outb) = outb.
+Proof. exact fmt_bytes_output_utf8. Qed.
+Print Assumptions C09_output_is_utf8.
+
 (* non-vacuity: a string with every escapable rune, a regex with slashes, nested array, trailing
    comment, description: accepted, formatted, the output accepted with the same document, and a
    second formatting changes nothing *)
@@ -214,3 +263,10 @@ Proof.
   split; [vm_compute; reflexivity|]. split; [vm_compute; reflexivity|].
   split; [vm_compute; reflexivity|]. split; [vm_compute; reflexivity|]. vm_compute. discriminate.
 Qed.
+
+(* non-vacuity on bytes: a two-byte rune inside a string literal; an invalid byte is formatted to U+FFFD *)
+Example C09_example_bytes :
+  fmt_bytes [97; 61; 34; 195; 169; 34; 10]%N = Ok [97; 32; 61; 32; 34; 195; 169; 34; 10]%N /\
+  accepted_bytes [97; 61; 34; 195; 169; 34; 10]%N /\
+  fmt_bytes [97; 61; 34; 195; 34; 10]%N = Ok [97; 32; 61; 32; 34; 239; 191; 189; 34; 10]%N.
+Proof. split; [vm_compute; reflexivity|]. split; [eexists; vm_compute; reflexivity|vm_compute; reflexivity]. Qed.
